@@ -457,6 +457,8 @@ class OutcomeCheck:
     ref_mode = "ref"          # "ref" = SC atomics, "refw" = unconstrained atomics
     cap = 3000
     shards = None             # None = corr.SHARDS processes; 1 where the order of programs within one process matters
+    heavy_family = lambda self, ctx: []     # programs with very many executions: oracle on the implementation only
+    heavy_cap = 400000
     assumptions = [
         "theorems are about the Coq model L; L is tied to src/rt by whole-run correspondence (every decision of every iteration, every result, the outcome) on the families",
         "R (Ref.v) is the specification of what outcomes a program can produce",
@@ -530,6 +532,20 @@ class OutcomeCheck:
             for v in viol:
                 if self.relevant(v["deviation"]):
                     res["violations"].append(v)
+        heavy = self.heavy_family(ctx)
+        nheavy = 0
+        if heavy:
+            fam_h = FamilyRun(ctx, heavy, "heavy", cap=self.heavy_cap, shards=self.shards)
+            violh, nkh, osth = oracle_compare(ctx, fam_h, known, self.ref_mode)
+            nknown += nkh
+            nheavy = len(fam_h.parsed)
+            sth = fam_h.stats()
+            nprog += sth["programs"]
+            nit += sth["iterations"]
+            aborts += fam_h.aborts
+            for v in violh:
+                if self.relevant(v["deviation"]):
+                    res["violations"].append(v)
         for a in aborts:
             d = "abort:" + a["crash"]
             if not known.match(a["prog"], d):
@@ -541,7 +557,7 @@ class OutcomeCheck:
         cov.update({
             "programs": nprog, "iterations": nit, "disagreements_checked": mism_total,
             "oracle_programs": len(fam_d.parsed) if fam_d else 0, "programs_deviating_from_R": ndev,
-            "known_finding_instances_reproduced": nknown,
+            "known_finding_instances_reproduced": nknown, "heavy_programs_oracle_only": nheavy,
             "evaluations": nit, "distinct_nontrivial": len({norm_prog(l) for l in alllines}),
             "samples": sample_programs(alllines), "outcomes": outcomes,
             "aborts": len(aborts),
@@ -1389,6 +1405,7 @@ class C03(OutcomeCheck):
     level_note = "partial: consistency of all explored executions is oracle-checked on the litmus core"
     det_family = lambda self, ctx: gen.fam_litmus_core(ctx.tier)
     rnd_family = rnd("c03r", "AF", nq=100, nt=1000, nthreads=(2, 3), maxops=3)
+    heavy_family = lambda self, ctx: gen.fam_litmus_heavy(ctx.tier)
 
 
 
@@ -1622,7 +1639,7 @@ class C20(OutcomeCheck):
 
 
 HOOK_COMMITS = ["8f72140"]
-FIX_COMMITS = ["4a97b3f", "e9415b5", "1d4f62f", "36c0d26", "7942235", "13413be", "756d098", "cac202b", "91a3e2b", "189e88b"]
+FIX_COMMITS = ["4a97b3f", "e9415b5", "1d4f62f", "36c0d26", "7942235", "13413be", "756d098", "cac202b", "91a3e2b", "189e88b", "c0421c4", "4a05908"]
 NOT_CLAIMED = {}
 REGISTRY = {"C14": C14(), "C01": C01(), "C05": C05(), "C07": C07(), "C08": C08(), "C09": C09(),
             "C10": C10(), "C11": C11(), "C18": C18(), "C12": C12(), "C15": C15(), "C19": C19(), "C13": C13(), "C06": C06(), "C16": C16(), "C02": C02(), "C03": C03(), "C04": C04(), "C17": C17(), "C20": C20()}
